@@ -1,4 +1,466 @@
-#include "run.h"
+// Engine store (C01, C03, C10): a document store holds texts serialised from model values; storage
+// faults (truncation, bit flips, lost/duplicated spans, splices, lost terminator, grammar-biased
+// single edits) hit the stored bytes between write and read; the read goes through a guarded view.
+#include <algorithm>
+#include <cstring>
 #include "gen.h"
-RunResult run_store(const Plan &, EventLog &, RunStats &, Progress *) { return RunResult(); }
-Plan gen_store_plan(const std::string &p, uint64_t s, int64_t r) { return gen_plan(p, s, r); }
+#include "guard.h"
+#include "profiles.h"
+#include "refjson.h"
+#include "run.h"
+
+static int64_t R(Rng &r) { return (int64_t)(r.next() >> 2); }
+static Step mk(const std::string &op, std::initializer_list<int64_t> a = {}, std::initializer_list<std::string> s = {}) {
+    Step st; st.op = op; st.a.assign(a.begin(), a.end()); st.s.assign(s.begin(), s.end()); return st;
+}
+static std::string I(int64_t v) { return std::to_string(v); }
+
+// ------------------------------------------------------------------ documents
+static std::string make_doc(int64_t vseed, int64_t sseed, int profile) {
+    Rng vr((uint64_t)vseed), sr((uint64_t)sseed);
+    GenOpts go = profile_opts(profile);
+    go.allow_raw = false; go.allow_nonfinite = false;
+    MVal *v = gen_value(vr, go);
+    SpellOpts so; so.bom = sr.chance(1, 8); so.ws = (int)sr.below(3); so.escapes = sr.chance(3, 4); so.numspell = sr.chance(3, 4);
+    std::string t = serialize_value(v, sr, so);
+    mv_free(v);
+    return t;
+}
+static std::string make_soup(int64_t seed) {
+    static const char *tok[] = {"[", "]", "{", "}", ",", ":", "\"a\"", "\"\"", "1", "-1.5e3", "true", "false", "null", " ", "\n", "\"\\u00e9\"", "\"\\ud83d\\ude00\"", "0", "-", "\"k\":", "[]", "{}", "1e", ".", "\\", "\"", "tru", "nul", "\xEF\xBB\xBF", "/*c*/"};
+    Rng r((uint64_t)seed);
+    int n = 1 + (int)r.below(r.chance(1, 4) ? 8 : 4);
+    std::string s;
+    for (int i = 0; i < n; i++) s += tok[r.below(r.chance(3, 4) ? 16 : 30)];
+    return s;
+}
+static std::string make_raw(int64_t seed) {
+    Rng r((uint64_t)seed);
+    size_t n = (size_t)r.below(r.chance(1, 4) ? 64 : 12);
+    std::string s;
+    for (size_t i = 0; i < n; i++) s.push_back((char)(r.chance(1, 2) ? r.below(256) : (uint64_t)"[]{}\",:\\0123456789-+.eEtrufalsn \t\n"[r.below(34)]));
+    return s;
+}
+static std::string make_deep(int64_t kind, int64_t dsel, int64_t closed) {
+    static const int depths[] = {998, 999, 1000, 1001, 1002, 1100, 5000, 100000};
+    int d = depths[(uint64_t)dsel % 8];
+    std::string open, close, inner = "1";
+    for (int i = 0; i < d; i++) {
+        int k = (int)((uint64_t)kind % 3);
+        bool obj = k == 1 || (k == 2 && (i & 1));
+        open += obj ? "{\"a\":" : "[";
+        close += obj ? "}" : "]";
+    }
+    std::reverse(close.begin(), close.end());
+    if ((uint64_t)closed % 3 == 0) return open;           // unbalanced: only openers
+    if ((uint64_t)closed % 3 == 1) return open + inner + close;
+    return open + close.substr(0, close.size() / 2);      // half closed
+}
+
+// ------------------------------------------------------------------ storage faults
+static const char *fault_name(int kind) {
+    static const char *n[] = {"trunc", "flip", "byte_replace", "span_del", "span_dup", "ins_struct", "splice", "struct_swap", "struct_drop", "sep_dup", "literal_tamper",
+                              "number_tamper", "escape_tamper", "surrogate_tamper", "quote_drop", "key_replace", "nest_wrap", "ins_lenient_ws", "ins_nul", "trailer"};
+    return n[kind];
+}
+static const int NFAULT = 20;
+static std::vector<size_t> positions(const std::string &b, const char *set) {
+    std::vector<size_t> v;
+    for (size_t i = 0; i < b.size(); i++) if (b[i] && strchr(set, b[i])) v.push_back(i);
+    return v;
+}
+static bool apply_fault(std::string &b, int kind, uint64_t x, uint64_t y, uint64_t seed) {
+    Rng r(seed);
+    size_t n = b.size();
+    switch (kind) {
+        case 0: b.resize((size_t)(x % (n + 1))); return true;
+        case 1: if (!n) return false; b[x % n] = (char)(b[x % n] ^ (1 << (y % 8))); return true;
+        case 2: if (!n) return false; b[x % n] = (char)(y % 256); return true;
+        case 3: if (!n) return false; b.erase(x % n, 1 + y % 4); return true;
+        case 4: { if (!n) return false; size_t p = x % n, l = 1 + y % 6; b.insert(p, b.substr(p, l)); return true; }
+        case 5: { static const char st[] = "[]{},:\"\\-0e.tfn"; b.insert(x % (n + 1), 1, st[y % (sizeof st - 1)]); return true; }
+        case 6: { std::string o = make_doc((int64_t)seed, (int64_t)(seed >> 7), 0); size_t cut = n ? x % (n + 1) : 0, oc = o.size() ? y % (o.size() + 1) : 0; b = b.substr(0, cut) + o.substr(oc); return true; }
+        case 7: { auto v = positions(b, "[]{},:\""); if (v.empty()) return false; static const char st[] = "[]{},:\""; size_t p = v[x % v.size()]; char c = st[y % 7]; if (c == b[p]) c = st[(y + 1) % 7]; b[p] = c; return true; }
+        case 8: { auto v = positions(b, "[]{},:"); if (v.empty()) return false; b.erase(v[x % v.size()], 1); return true; }
+        case 9: { auto v = positions(b, ",:"); if (v.empty()) return false; size_t p = v[x % v.size()]; b.insert(p, 1, b[p]); return true; }
+        case 10: {
+            std::vector<std::pair<size_t, size_t>> lit;
+            for (size_t i = 0; i < n; i++) for (const char *w : {"true", "false", "null"}) if (b.compare(i, strlen(w), w) == 0) lit.push_back({i, strlen(w)});
+            if (lit.empty()) return false;
+            auto l = lit[x % lit.size()];
+            switch (y % 4) {
+                case 0: b[l.first + (y / 4) % l.second] = (char)(b[l.first + (y / 4) % l.second] - 32); break;   // wrong case
+                case 1: b.erase(l.first + l.second - 1, 1); break;                                              // nul / tru / fals
+                case 2: b[l.first + l.second - 1] = 'x'; break;
+                default: b.insert(l.first + l.second, 1, b[l.first + l.second - 1]); break;                      // nulll
+            }
+            return true;
+        }
+        case 11: {
+            std::vector<std::pair<size_t, size_t>> runs;
+            bool in_str = false;
+            for (size_t i = 0; i < n; i++) {
+                if (b[i] == '"' && (i == 0 || b[i - 1] != '\\')) in_str = !in_str;
+                if (!in_str && b[i] >= '0' && b[i] <= '9') { size_t j = i; while (j < n && b[j] >= '0' && b[j] <= '9') j++; runs.push_back({i, j - i}); i = j; }
+            }
+            if (runs.empty()) return false;
+            auto d = runs[x % runs.size()];
+            switch (y % 5) {
+                case 0: b.erase(d.first, d.second); break;            // number without (these) digits
+                case 1: b.insert(d.first, "0"); break;                // leading zero
+                case 2: b.insert(d.first + d.second, "."); break;     // bare trailing point
+                case 3: b.insert(d.first + d.second, "e"); break;     // dangling exponent
+                default: b.replace(d.first, d.second, "-"); break;
+            }
+            return true;
+        }
+        case 12: {
+            auto v = positions(b, "\\");
+            if (v.empty()) {  // no escape present: plant one inside the first string
+                size_t q = b.find('"');
+                if (q == std::string::npos) return false;
+                static const char *e[] = {"\\x", "\\U0041", "\\u12", "\\u", "\\uZZZZ", "\\u12G4", "\\a", "\\'", "\\u 123", "\\u+123"};
+                b.insert(q + 1, e[y % 10]);
+                return true;
+            }
+            size_t p = v[x % v.size()];
+            if (p + 1 >= n) return false;
+            if (b[p + 1] == 'u') {
+                switch (y % 4) {
+                    case 0: b.erase(p + 2, std::min<size_t>(1 + (y / 4) % 4, n - p - 2)); break;   // fewer than four hex digits
+                    case 1: if (p + 2 + (y / 4) % 4 < n) b[p + 2 + (y / 4) % 4] = "ZgG-x "[(y / 16) % 6]; break;  // non-hex digit
+                    case 2: b[p + 1] = 'U'; break;
+                    default: b.erase(p, 1); break;
+                }
+            } else {
+                static const char bad[] = "xaveUN0'q ";
+                b[p + 1] = bad[y % 10];
+            }
+            return true;
+        }
+        case 13: {
+            size_t q = b.find('"');
+            if (q == std::string::npos) return false;
+            auto v = positions(b, "\"");
+            size_t p = v[x % v.size()];
+            // only plant inside a string body: after an opening quote (even index among quotes is an approximation; misplacement is just another corruption)
+            static const char *s[] = {"\\uD800", "\\uDC00", "\\uDFFF", "\\uDBFF", "\\uDC00\\uD800", "\\uD800\\u0041", "\\uD800\\uD800", "\\uD83D", "\\uD800x", "\\uD83D\\uDE0"};
+            b.insert(p + 1, s[y % 10]);
+            return true;
+        }
+        case 14: { auto v = positions(b, "\""); if (v.empty()) return false; b.erase(v[x % v.size()], 1); return true; }
+        case 15: {
+            // replace a key string by a number / literal / unquoted word
+            std::vector<std::pair<size_t, size_t>> keys;
+            for (size_t i = 0; i < n; i++) if (b[i] == '"') { size_t j = i + 1; while (j < n && b[j] != '"') { if (b[j] == '\\') j++; j++; } if (j < n) { size_t k = j + 1; while (k < n && (b[k] == ' ' || b[k] == '\t' || b[k] == '\n' || b[k] == '\r')) k++; if (k < n && b[k] == ':') keys.push_back({i, j + 1 - i}); i = j; } }
+            if (keys.empty()) return false;
+            auto k = keys[x % keys.size()];
+            static const char *rep[] = {"1", "true", "null", "abc", "'k'", "[]", ""};
+            b.replace(k.first, k.second, rep[y % 7]);
+            return true;
+        }
+        case 16: {
+            static const int depths[] = {1, 10, 999, 1000, 1001, 1100};
+            int d = depths[x % 6];
+            bool obj = y & 1;
+            std::string o, c;
+            for (int i = 0; i < d; i++) { o += obj ? "{\"w\":" : "["; c += obj ? "}" : "]"; }
+            b = o + b + c;
+            return true;
+        }
+        case 17: { char c = (char)(1 + y % 0x20); b.insert(x % (n + 1), 1, c); return true; }
+        case 18: b.insert(x % (n + 1), 1, '\0'); return true;
+        default: {
+            static const char *tr[] = {" ", "\n\t ", "x", " x", "]", ",", "\0x", " \0", "\0", "1", "//c", "}", "\"", " \0 ", "\0\0"};
+            static const size_t trl[] = {1, 3, 1, 2, 1, 1, 2, 2, 1, 1, 3, 1, 1, 3, 2};
+            b.append(tr[y % 15], trl[y % 15]);
+            return true;
+        }
+    }
+}
+
+// ------------------------------------------------------------------ generators
+Plan gen_store_plan(const std::string &prop, uint64_t seed, int64_t run) {
+    Plan p;
+    p.engine = "store"; p.property = prop; p.seed = seed; p.run = run;
+    Rng r(mix64(mix64(seed, hash_str(prop)), (uint64_t)run));
+    p.knobs["hooks"] = r.chance(1, 2);
+    p.knobs["fill"] = (int64_t)r.range(1, 255);
+    p.knobs["realloc"] = (int64_t)r.below(2);
+    auto add_doc = [&]() {
+        unsigned k = (unsigned)r.below(20);
+        if (k < 14) p.steps.push_back(mk("doc", {R(r), R(r), (int64_t)(r.chance(1, 3) ? 5 : (r.chance(1, 2) ? 0 : 3))}));
+        else if (k < 17) p.steps.push_back(mk("soup", {R(r)}));
+        else if (k < 19) p.steps.push_back(mk("raw", {R(r)}));
+        else p.steps.push_back(mk("deep", {R(r), R(r), R(r)}));
+    };
+    auto add_fault = [&](bool biased) {
+        int kind;
+        if (biased) { static const int ks[] = {7, 8, 9, 10, 11, 12, 13, 14, 15, 16, 0, 5, 19, 7, 8, 12, 13, 10}; kind = ks[r.below(18)]; }
+        else kind = (int)r.below(NFAULT);
+        p.steps.push_back(mk("fault", {kind, R(r), R(r), R(r)}));
+    };
+    if (prop == "C01") {
+        // one stored document, 0-2 sampled faults, several reads; truncation at every byte is enumerated by sub-executions
+        if (r.chance(1, 40)) p.steps.push_back(mk("deep", {R(r), R(r), R(r)}));
+        else if (r.chance(1, 6)) p.steps.push_back(mk(r.chance(1, 2) ? "soup" : "raw", {R(r)}));
+        else p.steps.push_back(mk("doc", {R(r), R(r), (int64_t)(r.chance(1, 2) ? 5 : (r.chance(1, 2) ? 0 : 1))}));
+        int nf = (int)r.below(3);
+        for (int i = 0; i < nf; i++) add_fault(false);
+        int np = (int)r.range(1, 3);
+        for (int i = 0; i < np; i++) p.steps.push_back(mk("parse", {R(r), R(r)}));
+        p.knobs["enumerate_trunc"] = 1;
+    } else if (prop == "C03") {
+        int groups = (int)r.range(1, 4);
+        for (int g = 0; g < groups; g++) {
+            add_doc();
+            int nf = r.chance(1, 8) ? 2 : 1;
+            if (r.chance(1, 12)) nf = 0;
+            for (int i = 0; i < nf; i++) add_fault(true);
+            int np = (int)r.range(1, 2);
+            for (int i = 0; i < np; i++) p.steps.push_back(mk("parse", {R(r), R(r)}));
+        }
+    } else {  // C10
+        int groups = (int)r.range(2, 6);
+        for (int g = 0; g < groups; g++) {
+            add_doc();
+            if (r.chance(1, 2)) p.steps.push_back(mk("fault", {19, R(r), R(r), R(r)}));  // trailing bytes / whitespace / zero bytes
+            if (r.chance(1, 3)) add_fault(r.chance(1, 2));
+            int np = (int)r.range(1, 3);
+            for (int i = 0; i < np; i++) p.steps.push_back(mk("parse", {R(r), R(r)}));
+        }
+    }
+    return p;
+}
+
+// ------------------------------------------------------------------ executor
+namespace {
+struct StoreRun {
+    const Plan &p;
+    EventLog &log;
+    RunStats &stats;
+    Progress *prog;
+    std::string bytes;
+    std::string lastfault = "none";
+    int step = -1;
+    uint64_t evals = 0;
+    int64_t subcount = 0;
+    bool have_doc = false;
+
+    [[noreturn]] void violation(const std::string &oracle, const std::string &msg) {
+        Outcome o; o.kind = Outcome::VIOLATION; o.oracle = p.property + "/" + oracle; o.msg = msg; o.step = step;
+        throw Stop{o};
+    }
+    [[noreturn]] void discard(const std::string &why) {
+        Outcome o; o.kind = Outcome::DISCARD; o.oracle = "discard"; o.msg = why; o.step = step;
+        throw Stop{o};
+    }
+    static int byte_class(int c) {
+        if (c < 0) return 0;
+        if (c == '"') return 1; if (c == '\\') return 2; if (c == '[' || c == ']') return 3; if (c == '{' || c == '}') return 4;
+        if (c == ',' || c == ':') return 5; if (c >= '0' && c <= '9') return 6; if (c == '-' || c == '+' || c == '.' || c == 'e' || c == 'E') return 7;
+        if (c <= 0x20) return 8; if (c >= 0x80) return 9; if (c == 'u') return 10; if (c >= 'a' && c <= 'z') return 11;
+        return 12;
+    }
+    void do_parse(const Step &st) {
+        int entry = (int)((uint64_t)st.A(0) % 4);
+        int flags = (int)((uint64_t)st.A(1) & 7);
+        bool opts = entry == 1 || entry == 3;
+        bool req = opts && (flags & 1), wantend = opts && (flags & 2), term = flags & 4;
+        bool cstring = entry < 2;
+        std::string B = bytes;
+        int64_t cut = -1;
+        if (p.sub >= 1 && p.knob("enumerate_trunc", 0)) {  // enumerated storage fault: short write at byte n
+            cut = (p.sub - 1) / 2;
+            term = (p.sub - 1) & 1;
+            if ((size_t)cut < B.size()) B.resize((size_t)cut);
+            stats.fault_counts["trunc_enumerated"]++;
+            stats.fault_counts[term ? "terminator_kept" : "noterm"]++;
+        } else stats.fault_counts[(cstring || term) ? "terminator_kept" : "noterm"]++;
+        std::string buffer;
+        if (cstring) { size_t z = B.find('\0'); buffer = (z == std::string::npos ? B : B.substr(0, z)); buffer.push_back('\0'); }
+        else { buffer = B; if (term) buffer.push_back('\0'); }
+        size_t n = buffer.size();
+        const std::string &prop = p.property;
+        size_t live0 = asim::live_blocks();
+        std::vector<uint64_t> serials0;
+        if (prop != "C10") serials0 = asim::live_serials();
+        ReadResult cls;
+        if (prop == "C03") classify_text((const unsigned char *)buffer.data(), n, cstring, req, cls);
+        InputView in = present_input(buffer, true);
+        const char *buf = in.ptr;
+        const char *end = (const char *)0x1;  // sentinel: must be overwritten when wanted
+        cJSON *r = nullptr;
+        if (prog) prog->judged = 1;
+        switch (entry) {
+            case 0: r = cJSON_Parse(buf); break;
+            case 1: r = cJSON_ParseWithOpts(buf, wantend ? &end : nullptr, req); break;
+            case 2: r = cJSON_ParseWithLength(buf, n); break;
+            default: r = cJSON_ParseWithLengthOpts(buf, n, wantend ? &end : nullptr, req); break;
+        }
+        const char *ep = cJSON_GetErrorPtr();
+        evals++;
+        std::string ctx = " [entry " + I(entry) + (req ? " require_null_terminated" : "") + (wantend ? " return_parse_end" : "") + ((cstring || term) ? " terminated" : " unterminated") + ", " + I((int64_t)n) + " declared bytes '" + show_bytes(buffer, 100) + "', last fault " + lastfault + (cut >= 0 ? ", cut at " + I(cut) : "") + "]";
+        bool unmodified = input_unmodified(in, buffer);
+        std::string verdict = r ? "tree" : "NULL";
+        // ---------------- C01
+        if (prop == "C01") {
+            if (!unmodified) { release_input(in); violation("input-modified", "the input buffer was written to" + ctx); }
+            if (r) {
+                size_t budget = 4000000;
+                std::string why;
+                if (!struct_wellformed(r, true, budget, 0, why)) { release_input(in); violation("tree-walk", "the returned tree cannot be walked: " + why + ctx); }
+                char *a = cJSON_Print(r), *b2 = cJSON_PrintUnformatted(r);
+                bool printed = a && b2;
+                if (a) cJSON_free(a);
+                if (b2) cJSON_free(b2);
+                if (!printed) { release_input(in); violation("tree-print", "the returned tree cannot be printed" + ctx); }
+                cJSON_Delete(r);
+                r = nullptr;
+            }
+            release_input(in);
+            std::string lv = asim::take_violation();
+            if (!lv.empty()) violation("ledger", lv + ctx);
+            if (asim::live_serials() != serials0) violation("leak", "after the call (and deleting its result) " + I((int64_t)asim::live_blocks() - (int64_t)live0) + " block(s) more are allocated than before:" + asim::describe_live(4) + ctx);
+            int before = cut > 0 && (size_t)cut <= bytes.size() ? (unsigned char)bytes[(size_t)cut - 1] : -1, after = (cut >= 0 && (size_t)cut < bytes.size()) ? (unsigned char)bytes[(size_t)cut] : -1;
+            if (!bytes.empty()) { stats.nontrivial++; stats.state_hashes.push_back(mix64((uint64_t)(byte_class(before) * 16 + byte_class(after)), (uint64_t)(entry * 4 + (term ? 1 : 0) + (cut >= 0 ? 2 : 0)))); }
+            log.add("parse e" + I(entry) + " f" + I(flags) + " n" + I((int64_t)n) + " -> " + verdict);
+            return;
+        }
+        // ---------------- C03
+        if (prop == "C03") {
+            release_input(in);
+            static const char *vn[] = {"inside", "outside", "unspecified"};
+            stats.probes[std::string("verdict_") + vn[cls.verdict]]++;
+            if (cls.verdict == V_OUTSIDE && r) {
+                std::string d;
+                { size_t budget = 100000; std::string w; MVal *m = read_struct(r, budget, 0, w); d = m ? mv_dump(m, 120) : "<unreadable>"; mv_free(m); }
+                // the tree is left allocated: the run ends here
+                violation("accepted-malformed", "text outside the accepted dialect (" + cls.why + ") was accepted as " + d + ctx);
+            }
+            if (r) { cJSON_Delete(r); r = nullptr; }
+            std::string lv = asim::take_violation();
+            if (!lv.empty()) discard("ledger violation outside this property's oracles: " + lv);
+            if (cls.verdict == V_OUTSIDE && asim::live_serials() != serials0) violation("rejection-leak", "rejecting the text left " + I((int64_t)asim::live_blocks() - (int64_t)live0) + " block(s) allocated:" + asim::describe_live(4) + ctx);
+            if (cls.verdict == V_OUTSIDE) { stats.nontrivial++; stats.state_hashes.push_back(mix64(hash_str(lastfault), hash_str(cls.why.substr(0, cls.why.find(" at offset"))))); }
+            log.add("parse e" + I(entry) + " f" + I(flags) + " n" + I((int64_t)n) + " " + vn[cls.verdict] + " -> " + verdict);
+            return;
+        }
+        // ---------------- C10
+        {
+            std::string trailer_class = "n/a";
+            if (r) {
+                if (ep != nullptr) { release_input(in); violation("error-pointer-after-success", "cJSON_GetErrorPtr() is not NULL after a successful parse" + ctx); }
+                if (wantend) {
+                    if (end == (const char *)0x1) { release_input(in); violation("parse-end-unset", "return_parse_end was not written on success" + ctx); }
+                    if (end < buf || end > buf + n) { release_input(in); violation("parse-end-range", "reported parse end lies outside the buffer (offset " + I((int64_t)(end - buf)) + " of " + I((int64_t)n) + ")" + ctx); }
+                    // the bytes before the parse end alone must parse to an equal tree
+                    std::string prefix(buf, (size_t)(end - buf));
+                    release_input(in);
+                    InputView in2 = present_input(prefix, true);
+                    cJSON *r2 = cJSON_ParseWithLength(in2.ptr, in2.n);
+                    release_input(in2);
+                    in = present_input(buffer, true);
+                    buf = in.ptr;
+                    if (!r2) { cJSON_Delete(r); release_input(in); violation("parse-end-prefix", "the bytes before the reported parse end (" + I((int64_t)prefix.size()) + ") do not parse by themselves" + ctx); }
+                    size_t b1 = 2000000, b2 = 2000000;
+                    std::string w1, w2, ew;
+                    MVal *m1 = read_struct(r, b1, 0, w1), *m2 = read_struct(r2, b2, 0, w2);
+                    bool eq = m1 && m2 && mv_equal(m1, m2, EqOpts(), &ew);
+                    mv_free(m1); mv_free(m2);
+                    cJSON_Delete(r2);
+                    if (!eq) { cJSON_Delete(r); release_input(in); violation("parse-end-prefix", "the bytes before the reported parse end parse to a different tree: " + ew + ctx); }
+                }
+            } else {
+                if (n > 0) {
+                    if (ep == nullptr || ep < buf || ep > buf + n - 1) { release_input(in); violation("error-pointer-range", std::string("after a failed parse cJSON_GetErrorPtr() ") + (ep ? "points outside the given buffer (offset " + I((int64_t)(ep - buf)) + " of " + I((int64_t)n) + ")" : "is NULL") + ctx); }
+                } else if (ep != buf) { release_input(in); violation("error-pointer-range", "after a failed parse of an empty buffer the error pointer is not the buffer start" + ctx); }
+                if (wantend && end != ep) { release_input(in); violation("error-pointer-mismatch", "return_parse_end and cJSON_GetErrorPtr() differ after a failed parse" + ctx); }
+            }
+            if (req) {
+                // reference: the same bytes without the termination requirement
+                const char *end0 = nullptr;
+                cJSON *r0 = cJSON_ParseWithLengthOpts(buf, n, &end0, 0);
+                if (!r0) {
+                    if (r) { cJSON_Delete(r); release_input(in); violation("termination", "parsing succeeds with require_null_terminated although it fails without" + ctx); }
+                    trailer_class = "no-value";
+                } else {
+                    size_t tb = (size_t)(end0 - buf);
+                    bool any_gt20_before_nul = false, any_gt20 = false, has_nul = false, seen_nul = false;
+                    for (size_t i = tb; i < n; i++) {
+                        unsigned char c = (unsigned char)buffer[i];
+                        if (c == 0) { has_nul = true; seen_nul = true; }
+                        else if (c > 0x20) { any_gt20 = true; if (!seen_nul) any_gt20_before_nul = true; }
+                    }
+                    bool last_is_nul = n > tb && buffer[n - 1] == 0;
+                    cJSON_Delete(r0);
+                    if (!has_nul || any_gt20_before_nul) {
+                        trailer_class = !has_nul ? "no-zero-byte" : "garbage";
+                        if (r) { cJSON_Delete(r); release_input(in); violation("termination", std::string("parsing succeeds with require_null_terminated although the value is ") + (!has_nul ? "not followed by a zero byte inside the buffer" : "followed by non-whitespace bytes") + ctx); }
+                    } else if (!any_gt20 && last_is_nul) {
+                        trailer_class = "ws-then-zero";
+                        if (!r) { release_input(in); violation("termination", "parsing fails with require_null_terminated although the value is followed only by whitespace and a zero byte" + ctx); }
+                    } else trailer_class = "zero-then-more";
+                }
+                // the reference call rewrote the global error position; histories continue from that state
+                stats.probes["trailer_" + trailer_class]++;
+            }
+            if (r) cJSON_Delete(r);
+            release_input(in);
+            std::string lv = asim::take_violation();
+            if (!lv.empty()) discard("ledger violation outside this property's oracles: " + lv);
+            stats.nontrivial++;
+            stats.state_hashes.push_back(mix64(mix64((uint64_t)entry * 8 + (uint64_t)flags, hash_str(verdict + trailer_class)), hash_str(lastfault)));
+            log.add("parse e" + I(entry) + " f" + I(flags) + " n" + I((int64_t)n) + " -> " + verdict + " trailer " + trailer_class);
+        }
+    }
+    void run() {
+        for (size_t i = 0; i < p.steps.size(); i++) {
+            const Step &st = p.steps[i];
+            step = (int)i;
+            if (prog) { prog->step = step; prog->judged = 0; }
+            stats.steps++;
+            stats.op_counts[st.op]++;
+            if (st.op == "doc") { bytes = make_doc(st.A(0), st.A(1), (int)st.A(2)); lastfault = "none"; have_doc = true; log.add("doc " + I((int64_t)bytes.size()) + " bytes"); }
+            else if (st.op == "soup") { bytes = make_soup(st.A(0)); lastfault = "none(soup)"; have_doc = true; log.add("soup '" + show_bytes(bytes, 60) + "'"); }
+            else if (st.op == "raw") { bytes = make_raw(st.A(0)); lastfault = "none(raw)"; have_doc = true; log.add("raw " + I((int64_t)bytes.size())); }
+            else if (st.op == "lit") { bytes = st.S(0); lastfault = "none(lit)"; have_doc = true; log.add("lit '" + show_bytes(bytes, 60) + "'"); }
+            else if (st.op == "deep") { bytes = make_deep(st.A(0), st.A(1), st.A(2)); lastfault = "none(deep)"; have_doc = true; stats.probes["deep_document"]++; log.add("deep " + I((int64_t)bytes.size())); }
+            else if (st.op == "fault") {
+                int kind = (int)((uint64_t)st.A(0) % NFAULT);
+                if (apply_fault(bytes, kind, (uint64_t)st.A(1), (uint64_t)st.A(2), (uint64_t)st.A(3))) { stats.fault_counts[fault_name(kind)]++; lastfault = fault_name(kind); log.add(std::string("fault ") + fault_name(kind)); }
+                else { stats.noops++; log.add(std::string("fault ") + fault_name(kind) + " (not applicable)"); }
+            } else if (st.op == "parse") {
+                stats.judged_steps++;
+                if (p.sub < 1 && subcount == 0 && p.knob("enumerate_trunc", 0) && bytes.size() <= 4000) subcount = 2 * ((int64_t)bytes.size() + 1);
+                do_parse(st);
+            }
+        }
+    }
+};
+}  // namespace
+
+RunResult run_store(const Plan &p, EventLog &log, RunStats &stats, Progress *prog) {
+    RunResult rr;
+    asim::reset_run((unsigned char)p.knob("fill", 0xA5), p.knob("realloc", 0) ? asim::RA_INPLACE : asim::RA_MOVE);
+    cJSON_Hooks h;
+    if (p.knob("hooks", 0)) { h.malloc_fn = asim::cust_malloc; h.free_fn = asim::cust_free; cJSON_InitHooks(&h); asim::set_epoch(asim::EP_BOTH); }
+    else { cJSON_InitHooks(nullptr); asim::set_epoch(asim::EP_DEFAULT); }
+    stats.fault_counts[p.knob("hooks", 0) ? "cfg_custom_hooks" : "cfg_default_allocator"]++;
+    StoreRun sr{p, log, stats, prog};
+    try {
+        sr.run();
+        if (asim::live_blocks() != 0) {
+            Outcome o; o.kind = Outcome::DISCARD; o.msg = "blocks left at the end of a store run";
+            if (p.property == "C01") { o.kind = Outcome::VIOLATION; o.oracle = "C01/leak"; o.msg = "blocks left allocated at the end of the run:" + asim::describe_live(4); }
+            rr.outcome = o;
+        }
+    } catch (Stop &s) {
+        rr.outcome = s.o;
+    }
+    cJSON_InitHooks(nullptr);
+    asim::set_epoch(asim::EP_DEFAULT);
+    rr.subcount = sr.subcount;
+    rr.evaluations = sr.evals;
+    return rr;
+}
